@@ -211,7 +211,13 @@ func c02gen(r *rand.Rand, universe []string) *c02case {
 		if lg.Entries != nil {
 			lg.Raw = c02renderList(r, lg.Entries)
 		}
-		cfg["logger."+lg.Name+"."+tagsKey()] = lg.Raw
+		if r.IntN(5) == 0 {
+			// the tag list comes from a top-level property through a ${} reference: the same rules apply to the resolved list
+			cfg["logger."+lg.Name+"."+tagsKey()] = "${taglist" + lg.Name + "}"
+			cfg["taglist"+lg.Name] = lg.Raw
+		} else {
+			cfg["logger."+lg.Name+"."+tagsKey()] = lg.Raw
+		}
 	}
 	switch c.Late {
 	case "bufferCap=12XB":
